@@ -142,6 +142,9 @@ def bind_target(eng, target, st, fid, val):
 
 def exec_for(eng, node, st, fid):
     def after_iter(s, itv):
+        if isinstance(itv, VFunc) and itv.kind == "dictview" and s.objs[itv.a.oid].get("pure"):
+            # a RECORD (dictionary with literal keys, any values): its entries are known one by one - the loop is unrolled
+            return unroll_record(eng, node, s, fid, itv)
         if isinstance(itv, VFunc) and itv.kind == "dictview" and _has_spec(eng, node) \
                 and not s.objs[itv.a.oid].get("lazy") and not s.objs[itv.a.oid].get("pure"):
             # a dict-view loop WITH a hand invariant (its body does more than rewriting D[k], e.g. it changes ghost state):
@@ -194,6 +197,53 @@ def unroll(eng, node, st, fid, seq):
                     new.append(("broken", s2, None))
                 else:
                     new.append((k2, s2, v2))
+        outs = new
+    res = []
+    for kind, s, v in outs:
+        if kind == "next":
+            res.extend(eng.exec_block(node.orelse, s, fid) if node.orelse else [("next", s, None)])
+        elif kind == "broken":
+            res.append(("next", s, None))
+        else:
+            res.append((kind, s, v))
+    return res
+
+
+def unroll_record(eng, node, st, fid, view):
+    """`for k, v in d.items()` / `for k in d.keys()` / `for v in d.values()` over a record dictionary (literal keys, heterogeneous values,
+    see builtins.to_record): one iteration per entry, in insertion order; a conditional entry ("maybe", cond, value) forks on its
+    presence condition.  The body must not add or remove entries of the record (Python raises RuntimeError then): unsupported."""
+    d, which = view.a, view.b
+    items = tuple(st.objs[d.oid]["pyitems"])
+    keys0 = tuple(k for k, _ in items)
+    outs = [("next", st, None)]
+    for key, w in items:
+        new = []
+        for kind, s, v in outs:
+            if kind != "next":
+                new.append((kind, s, v))
+                continue
+            cur = s.objs[d.oid]
+            if not cur.get("pure") or tuple(k for k, _ in cur["pyitems"]) != keys0:
+                raise Unsupported("record dictionary changed size during iteration")
+            w_now = dict(cur["pyitems"])[key]
+            if isinstance(w_now, VOpaque) and w_now.what == "maybe-entry":
+                raise Unsupported("iteration over a record entry whose presence is unknown")
+            alts = eng.branch(s, w_now[1]) if isinstance(w_now, tuple) else [(True, s)]
+            for present, s2 in alts:
+                if not present:
+                    new.append(("next", s2, None))
+                    continue
+                val = w_now[2] if isinstance(w_now, tuple) else w_now
+                item = {"items": VTuple((VConc(key), val)), "keys": VConc(key), "values": val}[which]
+                s3 = bind_target(eng, node.target, s2, fid, item)
+                for k2, s4, v4 in eng.exec_block(node.body, s3, fid):
+                    if k2 in ("next", "continue"):
+                        new.append(("next", s4, None))
+                    elif k2 == "break":
+                        new.append(("broken", s4, None))
+                    else:
+                        new.append((k2, s4, v4))
         outs = new
     res = []
     for kind, s, v in outs:
